@@ -53,6 +53,16 @@ def type_tree(x: Any) -> Any:
     return None
 
 
+def _plain(v: Any) -> Any:
+    if hasattr(v, "model_dump") and not isinstance(v, dict):
+        return v.model_dump(by_alias=True, exclude_none=True)
+    if isinstance(v, list):
+        return [_plain(x) for x in v]
+    if isinstance(v, dict):
+        return {k: _plain(x) for k, x in v.items()}
+    return v
+
+
 def resolve(target: str):
     import importlib
 
@@ -117,6 +127,15 @@ def handle(req: Dict[str, Any]) -> Any:
                 else:
                     dump = obj.model_dump(by_alias=True, exclude_none=True)
                     tt = type_tree(obj)
+                    # typed view: what attribute access gives for each declared field
+                    fnames = list(getattr(type(obj), "model_fields", None) or getattr(type(obj), "__model_fields__", {}) or [])
+                    attrs = {}
+                    for fn_ in fnames:
+                        try:
+                            attrs[fn_] = _plain(getattr(obj, fn_))
+                        except Exception as e:  # noqa
+                            attrs[fn_] = ("$error", str(e))
+                    tt = {"$tt": tt, "$attrs": attrs}
                     try:
                         dj = obj.model_dump_json(by_alias=True, exclude_none=True)
                     except Exception as e:  # noqa
@@ -124,6 +143,32 @@ def handle(req: Dict[str, Any]) -> Any:
                 out.append(("accept", tt, dump, dj))
             except Exception as e:  # noqa
                 out.append(("reject", type(e).__name__, str(e)[:300], None))
+        return out
+    if op == "apply":
+        # [(function target, [(model target | None, wire)], kwargs)] -> what the function returns, observed as a transport would
+        import asyncio
+        import inspect
+
+        out = []
+        for fn_target, margs, kwargs in req["calls"]:
+            try:
+                fn = resolve(fn_target)
+                args = []
+                for mt, w in margs:
+                    if mt is None:
+                        args.append(w)
+                    elif isinstance(w, list):
+                        args.append([resolve(mt).model_validate(x) for x in w])
+                    else:
+                        args.append(resolve(mt).model_validate(w))
+                r = fn(*args, **kwargs)
+                if inspect.iscoroutine(r):
+                    r = asyncio.run(r)
+                if hasattr(r, "model_dump"):
+                    r = r.model_dump(exclude_none=True)
+                out.append(("ok", r))
+            except Exception as e:  # noqa
+                out.append(("error", f"{type(e).__name__}: {e}"))
         return out
     if op == "call":
         out = []
